@@ -406,11 +406,16 @@ func (s *Slashing) boundAtomS(a *an.Atom, sub Subst, kind, reqFld string) bool {
 
 // nonNegAtom reports whether atom a establishes state field >= 0.
 func (s *Slashing) nonNegAtom(a *an.Atom, kind, stateFld string) bool {
+	return s.nonNegAtomS(a, nil, kind, stateFld)
+}
+
+func (s *Slashing) nonNegAtomS(a *an.Atom, sub Subst, kind, stateFld string) bool {
 	if a == nil {
 		return false
 	}
+	a = resolveAtom(a, sub)
 	isState := func(v ssa.Value) bool {
-		k, f := s.stateField(v)
+		k, f := s.stateField(sub.Res(v))
 		return k == kind && f == stateFld
 	}
 	if k, ok := a.LV.(*ssa.Const); ok && isState(a.RV) && k.Value != nil {
